@@ -100,6 +100,8 @@ impl MultiUidCompactor {
                 .await
                 .map_err(|e| CompactorError::ZoneWriter(format!("UID {}: {}", uid_plan.uid, e)))?;
             results.insert(uid_plan.uid.clone(), result);
+            #[cfg(sneldb_verif)]
+            crate::verif_hooks::step_async("compact.uid_written").await;
         }
 
         if tracing::enabled!(tracing::Level::INFO) {
